@@ -211,7 +211,7 @@ cleanup_pthread:
 void
 qb_log_thread_pause(struct qb_log_target *t)
 {
-	if (t->threaded) {
+	if (t->threaded && logt_wthread_lock != NULL) {
 		QB_VERIF_POINT(QB_VP_LOGT_C_PAUSE, logt_wthread_lock, t->pos, 0);
 		(void)qb_thread_lock(logt_wthread_lock);
 		QB_VERIF_POINT(QB_VP_LOGT_C_PAUSED, logt_wthread_lock, t->pos, 0);
@@ -221,7 +221,7 @@ qb_log_thread_pause(struct qb_log_target *t)
 void
 qb_log_thread_resume(struct qb_log_target *t)
 {
-	if (t->threaded) {
+	if (t->threaded && logt_wthread_lock != NULL) {
 		QB_VERIF_POINT(QB_VP_LOGT_C_RESUME, logt_wthread_lock, t->pos, 0);
 		(void)qb_thread_unlock(logt_wthread_lock);
 	}
@@ -331,6 +331,10 @@ qb_log_thread_stop(void)
 		QB_VERIF_POINT(QB_VP_LOGT_S_JOINED, logt_wthread_lock, 0, 0);
 	}
 	(void)qb_thread_lock_destroy(logt_wthread_lock);
+	/* a later qb_log_init/qb_log_thread_start must find no thread and no lock */
+	logt_wthread_lock = NULL;
+	wthread_active = QB_FALSE;
+	wthread_should_exit = QB_FALSE;
 	sem_destroy(&logt_print_finished);
 	sem_destroy(&logt_thread_start);
 }
